@@ -24,7 +24,7 @@ def hexList (fs : List Bytes) : String :=
   if fs.isEmpty then "-" else ",".intercalate (fs.map toHex)
 
 def endStr : End → String
-  | .err c => if c = "eof" then "eof" else "length"
+  | .err c => if c = "eof" then "eof" else if c = "io" then "io" else "length"
   | .fault _ => "panic"
 
 def showOut (o : Out) : String := "frames " ++ hexList o.frames ++ " end " ++ endStr o.end_
@@ -41,6 +41,14 @@ def parsePart? (t : String) : Option (Bool × Bytes) :=
   | 'm' :: r => (fromHex (String.ofList r)).map (fun b => (true, b))
   | _ => none
 
+/-- how the reader ends: io.EOF or a connection error -/
+def parseEndErr? (s : String) : Option String := if s = "eof" ∨ s = "io" then some s else none
+
+def readOp (stream : Bytes) (sh : Out → String) (sz e ee : String) : String :=
+  match parseSizes? sz, parseYN? e, parseEndErr? ee with
+  | some sizes, some eofd, some ee => sh (framesRead { chunks := cutStream stream sizes, eofd := eofd, endErr := ee })
+  | _, _, _ => "bad-op"
+
 def frameStep (stream : Bytes) (w : List String) : Bytes × String :=
   match w with
   | ["stream", h] => (match fromHex h with
@@ -49,12 +57,10 @@ def frameStep (stream : Bytes) (w : List String) : Bytes × String :=
   | "parts" :: toks => (match toks.mapM parsePart? with
       | some ps => let s := (ps.map (·.2)).flatten; (s, showOut (framesChunked false [s]))
       | none => (stream, "bad-op"))
-  | ["cuts", sz, e] => (match parseSizes? sz, parseYN? e with
-      | some sizes, some eofd => (stream, showOut (framesChunked eofd (cutStream stream sizes)))
-      | _, _ => (stream, "bad-op"))
-  | ["loop", sz, e] => (match parseSizes? sz, parseYN? e with
-      | some sizes, some eofd => (stream, showLoop (framesChunked eofd (cutStream stream sizes)))
-      | _, _ => (stream, "bad-op"))
+  | ["cuts", sz, e] => (stream, readOp stream showOut sz e "eof")
+  | ["loop", sz, e] => (stream, readOp stream showLoop sz e "eof")
+  | ["cuts", sz, e, ee] => (stream, readOp stream showOut sz e ee)
+  | ["loop", sz, e, ee] => (stream, readOp stream showLoop sz e ee)
   | _ => (stream, "bad-op")
 
 def frameFamily : Family := { σ := Bytes, init := [], step := frameStep }
